@@ -165,12 +165,34 @@ def step (b : Base) (ws : List String) : Base × String :=
       let r := announceUDPAll true b now 0 f4 f6
       (annBase b r, annObs r)
     | _, _, _ => (b, "bad-op")
+  | ["caudp", now, f4, f6, _] =>
+    match now.toInt?, parseUdpFam f4, parseUdpFam f6 with
+    | some now, some f4, some f6 =>
+      let r := announceUDPAll true b now 0 f4 f6
+      (annBase b r, annObs r)
+    | _, _, _ => (b, "bad-op")
   | ["ahttp", now, proxy, f4, f6, last, _, _] =>
     match now.toInt?, parseHttpFam f4, parseHttpFam f6 with
     | some now, some f4, some f6 =>
       let r := announceHTTPAll b now 0 (proxy == "1") f4 f6 (last == "6")
       (annBase b r, annObs r)
     | _, _, _ => (b, "bad-op")
+  | ["tick", perm, tiers] =>
+    let parseState (c : String) : Option TState :=
+      if c == "d" then some .disabled else if c == "e" then some .error else if c == "b" then some .busy
+      else if c == "i" then some .idle else if c == "r" then some .ready else none
+    let parseTier (t : String) : Option (List TState) :=
+      if t == "-" then some [] else (t.splitOn ",").mapM parseState
+    let pm : Option (List Nat) := if perm == "-" then some [] else (perm.splitOn ",").mapM (·.toNat?)
+    let ts : Option (List (List TState)) := if tiers == "." then some [] else (tiers.splitOn "|").mapM parseTier
+    let pr (l : List (Nat × Nat)) : String :=
+      if l.isEmpty then "-" else ",".intercalate (l.map fun x => s!"{x.1}.{x.2}")
+    match pm, ts with
+    | some pm, some ts =>
+      (match walkTiers ts pm with
+       | none => (b, "panic")
+       | some w => (b, s!"gs={pr w.visited} start={pr w.started}"))
+    | _, _ => (b, "bad-op")
   | _ => (b, "bad-op")
 
 end Storrent.Drive.C15
